@@ -21,8 +21,9 @@ RULE = ('three streams. paths: every string built from <= 5 components of {a, ab
         'open()/isfile()/exists(). require: main.lua with one require("<string>"), string = <= 4 components of '
         '{a, ab, sub, ., .., "", proj, projx, lib, init, ?, a;b} with/without leading/trailing "/", plus 39 strings with the '
         'load-path metacharacters ; and ? combined with absolute / parent paths of canary files that exist outside every '
-        'root (ok;<sandbox>/w/a.lua, ?;<sandbox>/w/a, ok;../a, ...), x 6 load-path '
-        'settings (default, environment variable, relative --lua-path, absolute, ../lib, two placeholders in a pattern) x 3 working directories x '
+        'root (ok;<sandbox>/w/a.lua, ?;<sandbox>/w/a, ok;../a, ...), x 7 load-path '
+        'settings (default, environment variable, relative --lua-path, absolute, ../lib, two placeholders in a pattern, patterns that climb '
+        'after a placeholder: ?/../a.lua;lib/?/../../?;??;?./a.lua) x 3 working directories x '
         'main named absolutely/relatively; tool.main([build ...]) under the same wrappers, canary files outside every '
         'root. graph: a main file and up to 10 library files (a, b, c, sub/a, sub/b, sub/sub/a, lib/a, lib/b, init, a/init), each '
         'with 0-3 require() lines over those names (+ missing, .., "", /a, ./a, ...), 7 load-path settings, 3 working '
@@ -37,12 +38,25 @@ CLAIM = dict(
           "C12_include_root_sound (the root is a carts folder the cart lies in, or the cart's own directory), "
           "C12_include_rejects_outside (a string denoting a place outside the root is rejected with "
           "P8IncludeOutsideOfAllowedDirectory), C12_include_ok_spec, C12_include_model_holds (for carts outside the "
-          "carts folders the model's accesses satisfy the monitor's predicate with the Spec-computed root); C12_require_contained (every candidate handed to "
-          "os.path.isfile / open lies under the directory its load-path pattern names, for every string the filter "
-          "lets through and every load path made of patterns DIR/NAME?SUFFIX), C12_require_contained_any_path, "
+          "carts folders the model's accesses satisfy the monitor's predicate with the Spec-computed root); "
+          "C12_require_contained_general (ANY load path - any number of '?', any components, absolute or relative - any "
+          "requiring file, working directory and string the filter lets through: every candidate handed to os.path.isfile / "
+          "open lies under pattern_root = the directory part of the pattern in front of its first '?' minus pattern_climb "
+          "levels, a function of the pattern text and the requiring file's directory alone (Spec/LoadPathSpec.v); no "
+          "hypothesis on the pattern or on the instantiated path), C12_require_candidate_under_root, C12_require_root_location, "
+          "C12_require_sane_climb0 (patterns DIR/NAME?SUFFIX have climb 0, root = pattern_dir), C12_require_contained and "
+          "C12_require_contained_flat (corollaries for sane / climb-0 load paths, the latter incl. several placeholders), "
+          "C12_require_contained_any_path, "
           "C12_require_default_path (default path: under the requiring file's directory), C12_require_filter_spec, "
-          "C12_require_model_holds (for every package graph, file system, sane load path and depth, the trace of the "
-          "model of the whole _evaluate_require recursion satisfies the predicate the monitor evaluates); "
+          "C12_require_model_holds (for every package graph, file system, load path and depth, the trace of the "
+          "model of the whole _evaluate_require recursion satisfies the predicate the monitor evaluates), "
+          "C12_require_monitor_flat / _sane (for climb-0 load paths the monitor's roots are the requiring files' directories "
+          "and pattern_dir of the patterns); C12_require_natural_refuted (beyond climb 0 a candidate need not lie under "
+          "pattern_dir: '??' with require('.'); the place reached is not a function of the pattern and the number of "
+          "components of the string: ?/../x with 'a' / '.', x?../../y with 'a/b' / 'a/'), C12_require_root_exact_examples "
+          "(for seven climbing patterns require('.') reaches a place not under the directory one level below pattern_root), "
+          "C12_require_plain_location (for strings made of proper names only the candidate's location is pattern_dir's "
+          "location minus m levels plus h names, (m, h) = plain_profile(pattern, number of components)); "
           "C12_abspath_location (the posixpath model's normpath/abspath preserve the POSIX location and leave no "
           "'..'); C12_monitor / C12_monitor_growing (soundness of the extracted monitors). "
           "C12_include_prefix_variant_refuted and C12_require_variants_refuted: the statements are false for the "
@@ -62,11 +76,9 @@ CLAIM = dict(
     design_ref='8 C12')
 ASSUMPTIONS = ['paths are UTF-8 byte strings without NUL; os.getcwd() is absolute; HOME is set; no symbolic links inside the sandbox tree',
                'os.path.isfile/exists probes count as accesses (the property\'s observe_at lists them)',
-               'the Lua load path (--lua-path / PICO8_LUA_PATH) is the configuration of the person running the tool: '
-               'C12_require_contained covers load paths whose patterns have the form DIR/NAME?SUFFIX (pattern_saneb)']
-PARTIAL = ('symbolic links, mount points and `~user` are operating-system behaviour outside the model; load paths with '
-           'several placeholders or ".." after the placeholder are covered only by C12_require_contained_any_path '
-           '(hypothesis on the instantiated tail)')
+               'the Lua load path (--lua-path / PICO8_LUA_PATH) is the configuration of the person running the tool: the '
+               'directories it designates (pattern_root of each pattern; pattern_dir for every pattern of climb 0) are permitted']
+PARTIAL = ('symbolic links, mount points and `~user` are operating-system behaviour outside the model')
 TRUSTED = ['in-process wrappers around builtins.open, os.path.isfile, os.path.exists (harness/props/fsobs.py)']
 
 # ---------------------------------------------------------------- sandbox layout
@@ -109,7 +121,8 @@ REQ_FILES = [
 ]
 NESTED = {'w/proj/sub/ab.lua': b'require("a")\nv_nested=1\n'}
 REQ_CWDS = ['w/proj', 'w', '']
-LOAD_PATHS = ['default', 'env', 'rel', 'abs', 'up', 'multi']
+LOAD_PATHS = ['default', 'env', 'rel', 'abs', 'up', 'multi', 'climb']
+GRAPH_LOAD_PATHS = ['default', 'env', 'rel', 'abs', 'up', 'multi']    # the model's isfile is lexical: no pattern with '..' after a placeholder
 
 
 def load_path(setting, S):
@@ -126,6 +139,8 @@ def load_path(setting, S):
         return '../lib/?.lua;?', None
     if setting == 'multi':                      # several placeholders in one pattern
         return '?/?.lua;lib/?/?.lua;?', None
+    if setting == 'climb':                      # patterns that go up after a placeholder (pattern_climb 1, 2, 1, 1):
+        return '?/../a.lua;lib/?/../../?;??;?./a.lua', None    # require(".") reaches w/a.lua, inside the designated w/
     raise ValueError(setting)
 
 
@@ -265,7 +280,7 @@ def gen_graph(rng):
             pool = GRAPH_REQS[:9] if rng.random() < 0.8 else GRAPH_REQS
             files[name + '.lua'] = [rng.choice(pool) for _ in range(k)]
     main = [rng.choice(GRAPH_REQS[:9] if rng.random() < 0.85 else GRAPH_REQS) for _ in range(rng.choice([1, 1, 2, 3]))]
-    return {'kind': 'graph', 'files': files, 'main': main, 'lp': rng.choice(LOAD_PATHS + ['default', 'rel']),
+    return {'kind': 'graph', 'files': files, 'main': main, 'lp': rng.choice(GRAPH_LOAD_PATHS + ['default', 'rel']),
             'cwd': rng.choice(['w/g', 'w', '']), 'mode': rng.choice(['abs', 'rel'])}
 
 
